@@ -108,6 +108,43 @@ struct Gen {
 
 const FAM_LAYOUT: u64 = 0;
 const FAM_RANDOM: u64 = 1;
+const FAM_TWOLONG: u64 = 2;
+
+/// Two long productions of different composition: p = [eco, k implicit tokens, a, b]:
+/// `Long: 'l' X…X` (a rule references: long in the source, one token) and `Toks: 't'…'t'` (b tokens:
+/// shorter in the source, but under Eco every token is followed by the implicit rule). Both rules are
+/// unreachable, so the automaton stays small.
+fn gen_twolong(p: &[u64; 8]) -> Gen {
+    let eco = p[0] == 1;
+    let k = if eco { p[1] as usize } else { 0 };
+    let (a, b) = (p[2] as usize, p[3] as usize);
+    let mut t = String::from("%start S\n");
+    let mut toks: Vec<String> = vec!["s".into(), "x".into(), "l".into(), "t".into()];
+    if k > 0 {
+        t.push_str("%implicit_tokens");
+        for i in 0..k {
+            t.push_str(&format!(" I{}", i));
+            toks.push(format!("I{}", i));
+        }
+        t.push('\n');
+    }
+    t.push_str("%%\nS: 's';\nX: 'x';\nLong: 'l'");
+    for _ in 0..a {
+        t.push_str(" X");
+    }
+    t.push_str(";\nToks:");
+    for _ in 0..b {
+        t.push_str(" 't'");
+    }
+    t.push_str(";\n");
+    let mut src = Src { eco, has_impl: eco && k > 0, k, nrules: 4, ntokens: toks.len(), ..Default::default() };
+    src.push_prod(1, 1);
+    src.push_prod(1, 1);
+    src.push_prod(a + 1, 1);
+    src.push_prod(b, b);
+    let yk = if eco { YaccKind::Eco } else { YaccKind::Original(YaccOriginalActionKind::GenericParseTree) };
+    Gen { yk, text: t, src, inputs: vec![vec!["s".to_string()], vec![], vec!["s".to_string(), "s".to_string()]], token_names: toks, parse_ok: true }
+}
 
 /// Layout family: p = [eco, k implicit tokens, nu filler rules, nt extra %token names,
 /// np productions of an unreachable rule P, ls symbols of one production of an unreachable rule L,
@@ -446,6 +483,7 @@ fn hidden_left_recursion(rules: &[Vec<Vec<Result<usize, usize>>>]) -> bool {
 fn generate(d: &Desc) -> Gen {
     match d.fam {
         FAM_LAYOUT => gen_layout(&d.p),
+        FAM_TWOLONG => gen_twolong(&d.p),
         _ => gen_random(&d.p),
     }
 }
@@ -1004,6 +1042,8 @@ fn describe_desc(d: &Desc) -> String {
             "layout eco={} implicit={} filler_rules={} extra_tokens={} alt_prods={} long_prod={} chain={} chain_tokens={}",
             d.p[0], d.p[1], d.p[2], d.p[3], d.p[4], d.p[5], d.p[6], d.p[7]
         )
+    } else if d.fam == FAM_TWOLONG {
+        format!("two long productions eco={} implicit={} rule_refs={} tokens={}", d.p[0], d.p[1], d.p[2], d.p[3])
     } else {
         format!("random seed={} case={}", d.p[0], d.p[1])
     }
@@ -1207,7 +1247,7 @@ fn run_grammar_case(out: &mut Out, d: &Desc, stages: usize) {
         ),
     );
     // distribution
-    out.count(if d.fam == FAM_LAYOUT { "fam.layout" } else { "fam.random" });
+    out.count(if d.fam == FAM_LAYOUT { "fam.layout" } else if d.fam == FAM_TWOLONG { "fam.twolong" } else { "fam.random" });
     if !g.parse_ok {
         out.count("parse_skipped.hidden_left_recursion");
     }
@@ -1246,14 +1286,19 @@ fn run_grammar_case(out: &mut Out, d: &Desc, stages: usize) {
     }
 }
 
-fn lexer_width<T>(n: usize) -> Result<(usize, usize), String>
+fn lexer_width<T>(n: usize, unnamed_from: usize) -> Result<(usize, usize), String>
 where
     T: 'static + PrimInt + Unsigned + Hash + Debug + TryFrom<usize>,
     usize: AsPrimitive<T>,
 {
     let mut l = String::from("%%\n");
     for i in 0..n {
-        l.push_str(&format!("k{}, \"K{}\"\n", i, i));
+        if i >= unnamed_from {
+            // rules without a name (`;`) count towards the ids like any other
+            l.push_str(&format!("k{}, ;\n", i));
+        } else {
+            l.push_str(&format!("k{}, \"K{}\"\n", i, i));
+        }
     }
     guarded(AssertUnwindSafe(|| {
         let ld = LRNonStreamingLexerDef::<Lx<T>>::from_str(&l).map_err(|e| format!("{:?}", e.first().map(|x| x.to_string()))).unwrap();
@@ -1271,7 +1316,15 @@ where
 }
 
 fn run_lexer_case(out: &mut Out, n: usize) {
-    let rs = [(8usize, lexer_width::<u8>(n)), (16, lexer_width::<u16>(n)), (32, lexer_width::<u32>(n))];
+    run_lexer_case_with(out, n, usize::MAX);
+    // the same number of rules with the last ones unnamed
+    if n >= 20 {
+        run_lexer_case_with(out, n, n - n.min(12));
+    }
+}
+
+fn run_lexer_case_with(out: &mut Out, n: usize, unnamed_from: usize) {
+    let rs = [(8usize, lexer_width::<u8>(n, unnamed_from)), (16, lexer_width::<u16>(n, unnamed_from)), (32, lexer_width::<u32>(n, unnamed_from))];
     let id = out.id();
     let acc: Vec<String> = rs.iter().map(|(_, r)| (r.is_ok() as u8).to_string()).collect();
     out.case("C20", id, &format!("1 {} {}", n, acc.join(" ")));
@@ -1293,7 +1346,7 @@ fn run_lexer_case(out: &mut Out, n: usize) {
     }
     out.imp(id, "I", &parts.join(" "));
     out.imp(id, "H", &if fails.is_empty() { "ok".to_string() } else { format!("fail {}", fails.join("; ")) });
-    out.imp(id, "D", &format!("lexer with {} rules | {}", n, if refusals.is_empty() { "no refusals".to_string() } else { refusals.join(", ") }));
+    out.imp(id, "D", &format!("lexer with {} rules{} | {}", n, if unnamed_from < n { format!(" (the last {} unnamed)", n - unnamed_from) } else { String::new() }, if refusals.is_empty() { "no refusals".to_string() } else { refusals.join(", ") }));
     out.count("fam.lexer");
     if (250..=260).contains(&n) {
         out.count(&format!("boundary.u8.lexrules.{}", n));
@@ -1347,6 +1400,11 @@ fn case_list(a: &Args) -> Vec<Case> {
         v.push(Case::Grammar(layout(1, 3, 0, n - 5, 0, 0, 1, 1), 3));
         // Eco without implicit tokens behaves like the plain kind
         v.push(Case::Grammar(layout(1, 0, n - 1, 0, 0, 0, 1, 1), 3));
+        // two long productions: the one that is longest in the source is not the one that is longest
+        // after the Eco rewrite
+        v.push(Case::Grammar(Desc { fam: FAM_TWOLONG, p: [1, 1, n / 2 + 4, n / 2, 0, 0, 0, 0] }, 3));
+        v.push(Case::Grammar(Desc { fam: FAM_TWOLONG, p: [1, 2, n - 60, (n + 1) / 2, 0, 0, 0, 0] }, 3));
+        v.push(Case::Grammar(Desc { fam: FAM_TWOLONG, p: [0, 0, n - 100, n, 0, 0, 0, 0] }, 3));
         // several dimensions at once
         v.push(Case::Grammar(layout(0, 0, n - 3, n - 1, 0, 0, 1, 1), 3));
         v.push(Case::Grammar(layout(0, 0, n - 3, n - 1, 0, n, 1, 1), 3));
